@@ -676,7 +676,13 @@ namespace vw
         world_t main;
         main.build(gs, w.ops, w.ops.size(), true, false, false);
         const std::size_t n = main.grid->size();
-        auto adj = adjacency(*main.grid);
+        // adjacency from a scratch grid: the worlds' own neighbour caches must stay cold until the
+        // library itself (routers, possibly worker threads) fills them
+        std::vector<std::vector<std::size_t>> adj;
+        {
+            std::unique_ptr<G> scratch = GridMaker<G>::make(gs);
+            adj = adjacency(*scratch);
+        }
 
         // reference worlds
         std::unique_ptr<world_t> twin;  // C10: same history, sequential
@@ -719,6 +725,7 @@ namespace vw
         std::vector<std::size_t> base = main.graph->base_levels();
         std::vector<double> last_field;
         std::vector<double> eroded_field;  // surface after the last erode op (+ uplift), if any
+        std::vector<std::set<std::size_t>> base_sets;  // base-level sets seen so far
         Obs last_obs;
         std::vector<double> cur_exp(w.ops.size());
         std::vector<int> cur_method(w.ops.size()), cur_route(w.ops.size());
@@ -752,7 +759,10 @@ namespace vw
             }
             arr_t in = main.make_array(field);
             arr_t in_copy = in;
+            const std::size_t cache_before = main.grid->neighbors_indices_cache().cache_used();
             const arr_t& res = main.update(in);
+            if (main.grid->neighbors_indices_cache().cache_used() > cache_before)
+                ++C[has_parallel_router ? "p.neighbour_cache_filled_during_parallel_update" : "p.neighbour_cache_filled_during_update"];
             ++C["p.updates"];
             if (has_parallel_router)
                 ++C["p.parallel_updates"];
@@ -992,6 +1002,14 @@ namespace vw
                     if (ok)
                     {
                         std::set<std::size_t> a(h.levels.begin(), h.levels.end()), b0(base.begin(), base.end());
+                        if (a != b0)
+                            for (auto& old : base_sets)
+                                if (old == a)
+                                {
+                                    ++C["p.restored_earlier_base_levels"];
+                                    break;
+                                }
+                        base_sets.push_back(b0);
                         base = h.levels;
                         all_worlds([&](world_t& x) { x.set_base(base); });
                         ++state_changes;
@@ -1165,6 +1183,20 @@ namespace vw
                     kr.prepare(target, nthreads, static_cast<int>(h.b), static_cast<int>(h.c), static_cast<int>(h.d), salt);
                     kr.run(target);
                     ++C[nthreads > 1 ? "p.parallel_kernels" : "p.sequential_kernels"];
+                    if (nthreads > 1)
+                    {
+                        const auto& lv = h.d ? target.impl().bfs_levels() : target.impl().any_order_levels();
+                        for (std::size_t k = 1; k < lv.size(); ++k)
+                        {
+                            const std::size_t sz = lv(k) - lv(k - 1);
+                            if (static_cast<long>(sz) < h.c)
+                                ++C["p.kernel_level_ran_inline"];
+                            else if (sz < static_cast<std::size_t>(nthreads))
+                                ++C["p.kernel_level_smaller_than_pool"];
+                            else
+                                ++C["p.kernel_level_dispatched"];
+                        }
+                    }
                     uint64_t dg = 0;
                     for (std::size_t i = 0; i < n; ++i)
                         dg = vsim::mix64(dg, dbits(kr.ctx.out[i]));
